@@ -15,13 +15,15 @@ def pad1 (data : Bytes) (blockSize : Option Nat) : R Bytes :=
 def pad2 (data : Bytes) (blockSize : Option Nat) : R Bytes :=
   pad1 (data ++ [0x80]) (some (blockSize.getD 8))
 
-/-- mac.py 75-100.  Two live CBC contexts: `encryptor1` (key1, zero IV) is fed the padded data and
-later, *continuing from its chaining value*, the output of `decryptor2` (key2, IV = last block)
-applied to the last block. -/
-def mac3 (key1 key2 data : Bytes) (padding : Int) (length : Option Nat) : R Bytes := do
-  let length := length.getD 8
-  let data ← if padding = 1 then pad1 data (some 8) else if padding = 2 then pad2 data (some 8)
-             else throw .valueError
+/-- mac.py 78-83: the padding method selector -/
+def padSelect (padding : Int) (data : Bytes) : R Bytes :=
+  if padding = 1 then pad1 data (some 8) else if padding = 2 then pad2 data (some 8)
+  else throw .valueError
+
+/-- mac.py 85-100 on the padded data.  Two live CBC contexts: `encryptor1` (key1, zero IV) is fed the
+padded data and later, *continuing from its chaining value*, the output of `decryptor2` (key2,
+IV = last block) applied to the last block. -/
+def macCore (key1 key2 data : Bytes) (length : Nat) : R Bytes := do
   let ks1 ← tdesKeys key1
   let enc1 := cbcEncUpdate (encBlock ks1) (zeros 8) data            -- encryptor1.update(data)
   let last := lastN 8 enc1.1                                         -- [-8:]
@@ -30,5 +32,10 @@ def mac3 (key1 key2 data : Bytes) (padding : Int) (length : Option Nat) : R Byte
   let dec2 := cbcDecUpdate (decBlock ks2) last last                  -- decryptor2.update(data)
   let enc1' := cbcEncUpdate (encBlock ks1) enc1.2 dec2.1             -- the same encryptor1 goes on
   pure (enc1'.1.take length)
+
+/-- mac.py 75-100 -/
+def mac3 (key1 key2 data : Bytes) (padding : Int) (length : Option Nat) : R Bytes := do
+  let data ← padSelect padding data
+  macCore key1 key2 data (length.getD 8)
 
 end Pyemv
